@@ -171,8 +171,9 @@ def _run_task(task):
             if n < 12:
                 per_class[key] = n + 1
                 res['violations'].append(v.to_json())
-        if h.sample is not None and len(res['samples']) < 3 and rnd.random() < 1.0 / sample_every[0]:
-            res['samples'].append(h.sample)
+        # witnesses of paths on which every obligation was discharged (they are replayed natively afterwards)
+        if h.sample is not None and not h.violations and len(res['samples']) < 3 and rnd.random() < 1.0 / sample_every[0]:
+            res['samples'].append({'inputs': h.sample, 'obligations': list(getattr(h, 'seen', []))[:8], 'shape': h.shape})
             sample_every[0] *= 4
 
     try:
@@ -230,7 +231,8 @@ def native(kind, payload, profile='dev', timeout=120):
     if p.returncode == 101 or (p.returncode != 0 and not out):
         return {'panic': p.stderr.decode('utf-8', 'replace')[-600:], 'rc': p.returncode}
     try:
-        return json.loads(out.splitlines()[-1])
+        # split on LF only: str.splitlines() also splits on U+0085 / U+2028, which occur inside replayed inputs
+        return json.loads(out.split('\n')[-1])
     except Exception:
         return {'unparsed': out[-600:], 'stderr': p.stderr.decode('utf-8', 'replace')[-600:], 'rc': p.returncode}
 
@@ -468,11 +470,34 @@ def finish(pid, mod, tier, seed, results, t0, th, mir_s, tasks, timed_out=False)
     if inconclusive and status == 0:
         status = 2
     wall = time.time() - t0
+    # translator validation: witnesses of fully discharged paths are run through the real code; the native
+    # oracle of every obligation evaluated on that path must agree (nothing fails)
+    witness_validated = 0
+    witness_disagreements = []
+    if not os.environ.get('VERIF_NO_WITNESS_REPLAY') and hasattr(mod, 'replay'):
+        pool = [(r['task'], s) for r in results for s in r['samples'][:1]]
+        random.Random(seed + 17).shuffle(pool)
+        for task, s_ in pool[:int(os.environ.get('VERIF_WITNESSES', '8'))]:
+            for ob in s_['obligations'][:3]:
+                v = {'obligation': ob, 'detail': 'witness', 'inputs': s_['inputs'], 'shape': s_['shape'], 'known': None, 'kind': 'property'}
+                try:
+                    rr = mod.replay(v, native)
+                except Exception as e:
+                    rr = {'error': '%s: %s' % (type(e).__name__, e)}
+                if not isinstance(rr, dict) or 'error' in rr or 'note' in rr:
+                    continue
+                if rr.get('reproduced'):
+                    witness_disagreements.append({'task': task, 'obligation': ob, 'inputs': s_['inputs'], 'native': rr})
+                else:
+                    witness_validated += 1
+    for wd in witness_disagreements[:3]:
+        print('NOTE: model/native disagreement on a witness (obligation %s discharged by the model, native oracle fires): %s' % (
+            wd['obligation'], json.dumps(wd['inputs'], default=str)[:300]), file=sys.stderr)
     samples = []
     for r in results:
         for s in r['samples']:
             if len(samples) < 8:
-                samples.append({'obligation': r['task'][0], 'shape': r['task'][1], 'witness': s})
+                samples.append({'obligation': r['task'][0], 'shape': r['task'][1], 'witness': s['inputs']})
     if not samples:
         samples = [{'obligation': r['task'][0], 'shape': r['task'][1]} for r in results[:3]]
     ev = {
@@ -480,7 +505,8 @@ def finish(pid, mod, tier, seed, results, t0, th, mir_s, tasks, timed_out=False)
         'level': 'model_checking',
         'coverage': {
             'states': int(agg['paths']), 'transitions': int(agg['steps']),
-            'traces_validated_against_impl': int(agg.get('extra', {}).get('validated', 0)) + replayed,
+            'traces_validated_against_impl': int(agg.get('extra', {}).get('validated', 0)) + replayed + witness_validated,
+            'witnesses_validated': witness_validated, 'witness_disagreements': witness_disagreements[:5],
             'samples': samples,
             'exhaustive': not inconclusive,
             'shapes': len(tasks), 'paths_reaching_obligation': sum(r['reached'] for r in results),
